@@ -146,6 +146,37 @@ pub struct Hist {
     pub keys: Vec<(String, [u8; 32])>, // named caller-side keys
     pub paths: Vec<(String, PathBuf, bool)>, // name, path, dir pre-existing
     pub handles: Vec<(String, String, MdkSqliteStorage)>, // thread, path name, handle
+    pub watch: Option<(Arc<std::sync::atomic::AtomicBool>, std::thread::JoinHandle<()>)>,
+}
+
+/// watcher thread: stat()s the database paths in a tight loop and logs every change of (existence, mode) it sees.
+/// A sighting is logged only if no other event took an order stamp between the stat and the logging, so its place
+/// in the log is the instant it was made.
+fn spawn_watcher(paths: Vec<(String, PathBuf)>) -> (Arc<std::sync::atomic::AtomicBool>, std::thread::JoinHandle<()>) {
+    use std::sync::atomic::{AtomicBool, Ordering};
+    let stop = Arc::new(AtomicBool::new(false));
+    let s2 = stop.clone();
+    let stat = |pb: &Path| -> String {
+        match std::fs::metadata(pb) {
+            Ok(md) => mode_class(md.permissions().mode()).to_string(),
+            Err(_) => "none".to_string(),
+        }
+    };
+    let mut last: Vec<String> = paths.iter().map(|(_, pb)| stat(pb)).collect();
+    let h = std::thread::spawn(move || {
+        let sh = shared();
+        while !s2.load(Ordering::SeqCst) {
+            for (i, (name, pb)) in paths.iter().enumerate() {
+                let before = sh.stamp.load(Ordering::SeqCst);
+                let m = stat(pb);
+                if m != last[i] && sh.stamp.compare_exchange(before, before + 1, Ordering::SeqCst, Ordering::SeqCst).is_ok() {
+                    sh.log.lock().unwrap().push((before, json!({"op":"Sight","p":name,"mode":m})));
+                    last[i] = m;
+                }
+            }
+        }
+    });
+    (stop, h)
 }
 
 fn rand_key(rng: &mut StdRng) -> [u8; 32] {
@@ -165,7 +196,7 @@ impl Hist {
             let n = sh.key_name(&k);
             keys.push((n, k));
         }
-        Hist { dir: tempfile::tempdir().unwrap(), id: format!("mdk.db.key.h{hid}"), lines: vec![], keys, paths: vec![], handles: vec![] }
+        Hist { dir: tempfile::tempdir().unwrap(), id: format!("mdk.db.key.h{hid}"), lines: vec![], keys, paths: vec![], handles: vec![], watch: None }
     }
     pub fn key(&self, name: &str) -> [u8; 32] {
         self.keys.iter().find(|(n, _)| n == name).map(|(_, k)| *k).expect("key name")
@@ -221,6 +252,16 @@ impl Hist {
             })
             .collect();
         self.lines.push(json!({"op":"Reset","files":fl,"kr":kr,"lock":"free"}));
+        self.watch = Some(spawn_watcher(self.paths.iter().map(|(n, pb, _)| (n.clone(), pb.clone())).collect()));
+    }
+
+    /// stop the watcher and collect every event of the history in stamp order
+    pub fn finish(&mut self) {
+        if let Some((stop, h)) = self.watch.take() {
+            stop.store(true, std::sync::atomic::Ordering::SeqCst);
+            let _ = h.join();
+        }
+        self.lines.extend(shared().take_log());
     }
 
     /// run one constructor on the current thread (thread name must be set); returns result class
@@ -240,8 +281,10 @@ impl Hist {
             Ok(Ok(h)) => ("Ok".to_string(), Some(h), String::new()),
         };
         let data = h.as_ref().map(tokens_of).unwrap_or_default();
-        let (mm, sm) = files_modes(pb);
-        sh.emit(json!({"op":"End","t":t,"p":pname,"res":cls,"mode":mm,"smode":sm,"dmode":dir_mode(pb, pre),"data":data,"detail":detail}));
+        sh.emit_measured(|| {
+            let (mm, sm) = files_modes(pb);
+            json!({"op":"End","t":t,"p":pname,"res":cls,"mode":mm,"smode":sm,"dmode":dir_mode(pb, pre),"data":data,"detail":detail})
+        });
         (cls, h)
     }
 
@@ -255,22 +298,20 @@ impl Hist {
         cls
     }
 
-    pub fn flush(&mut self) {
-        self.lines.extend(shared().take_log());
-    }
+    pub fn flush(&mut self) {}
 
     pub fn write(&mut self, t: &str, tok: &str) {
         let (_, p, h) = self.handles.iter().find(|(tt, _, _)| tt == t).expect("handle");
         let r = h.save_group(token_group(tok));
         let data = tokens_of(h);
-        self.lines.push(json!({"op":"Write","t":t,"p":p,"tok":tok,"res":if r.is_ok() {"Ok"} else {"Err"},"data":data}));
+        shared().emit(json!({"op":"Write","t":t,"p":p,"tok":tok,"res":if r.is_ok() {"Ok"} else {"Err"},"data":data}));
     }
 
     pub fn close_all(&mut self) {
         let hs = std::mem::take(&mut self.handles);
         for (t, p, h) in hs {
             drop(h);
-            self.lines.push(json!({"op":"Close","t":t,"p":p}));
+            shared().emit(json!({"op":"Close","t":t,"p":p}));
         }
     }
 
@@ -282,7 +323,7 @@ impl Hist {
             let (st, key, data) = probe_file(pb);
             fl.push(json!({"p":n,"st":st,"key":key,"mode":files_mode(pb),"dmode":dir_mode(pb, *pre),"data":data}));
         }
-        self.lines.push(json!({"op":"Probe","files":fl,"kr":kr}));
+        sh.emit(json!({"op":"Probe","files":fl,"kr":kr}));
     }
 
     /// several threads call constructors at the same instant
@@ -371,6 +412,7 @@ pub fn run_matrix(seed: u64) -> (Vec<Value>, usize) {
                 let _ = r2;
                 h.close_all();
                 h.probe();
+                h.finish();
                 out.extend(h.lines.drain(..));
             }
         }
@@ -395,6 +437,7 @@ pub fn run_matrix(seed: u64) -> (Vec<Value>, usize) {
         h.call("t1", "new", "p2", "");
         h.close_all();
         h.probe();
+        h.finish();
         out.extend(h.lines.drain(..));
     }
     (out, cells)
@@ -444,6 +487,7 @@ pub fn run_races(seed: u64, n: usize, min_threads: usize, max_threads: usize) ->
             h.close_all();
         }
         h.probe();
+        h.finish();
         out.extend(h.lines.drain(..));
     }
     out
@@ -473,6 +517,7 @@ pub fn run_poison(seed: u64) -> Vec<Value> {
     h.call("t1", "new", "p2", "");
     h.close_all();
     h.probe();
+    h.finish();
     out.extend(h.lines.drain(..));
     out
 }
